@@ -189,6 +189,9 @@ fn note(stats: &Stats, st: &PaintStats, h: u64) {
     }
 }
 
+/// cap on the modelled number of paint-node visits per root in the generated stage (see `colrgen::walk_upper_bound`)
+const WALK_CAP: u64 = 300_000;
+
 pub fn test_generated(c: &ColrCase, stats: &Stats, strict: bool) -> CaseResult {
     let bytes = build_font(c);
     let mut st = PaintStats::default();
@@ -203,6 +206,12 @@ pub fn test_generated(c: &ColrCase, stats: &Stats, strict: bool) -> CaseResult {
             let cyclic = colrgen::cycle_reachable(c, *root as usize);
             if cyclic {
                 stats.class("root_with_reachable_cycle");
+            }
+            // formally bounded but astronomically long walks (fan-out / doubled PaintGlyph children to depth 64) are not
+            // violations under DESIGN.md C13-L and cannot be watched by the painter's callback budget: left out, counted
+            if colrgen::walk_upper_bound(c, *root as usize, WALK_CAP) > WALK_CAP {
+                stats.class("excluded_by_construction:walk_bound_above_cap");
+                continue;
             }
             colrgen::paint_and_check(&font, *gid as u32, &coords, &c.script, cyclic && all_unimplemented, &mut st)?;
             // bounding box must not panic either
